@@ -7,6 +7,9 @@ type State struct {
 	A, X, Y, S, D, PC uint16
 	DBR, K, P         byte
 	E                 byte
+	// DecUndef is an OUTPUT of Step: the instruction was a decimal-mode ADC / SBC with a digit above 9 in the
+	// accumulator or the operand, for which the programming model defines neither the result nor N V Z C.
+	DecUndef bool
 }
 
 type Mem = *[1 << 24]byte
@@ -440,9 +443,39 @@ func Step(s *State, m Mem, op byte) {
 			wr(m, l.hi, byte(r>>8))
 		}
 		s.PC += n
-	// ---- arithmetic (binary mode only; decimal is outside this prototype)
+	// ---- arithmetic
 	case iADC, iSBC:
 		c := uint32(s.P & fC)
+		if s.P&fD != 0 {
+			// decimal mode: the accumulator and the operand are packed BCD numbers of 2 (m=1) or 4 digits; the
+			// result is their decimal sum / difference with carry / borrow (C = 1: no borrow), N and Z describe
+			// the result. V is left as the binary rule gives it: the model does not define it in decimal mode
+			// and the lemmas do not compare it.
+			var a, d uint32
+			digits := 4
+			if s.m8() {
+				a, d, digits = uint32(s.A&0xFF), uint32(rd(m, l.lo)), 2
+			} else {
+				a, d = uint32(s.A), uint32(rd16(m, l.lo, l.hi))
+			}
+			s.DecUndef = !bcdValid(a, digits) || !bcdValid(d, digits)
+			var r uint32
+			if e.Ins == iADC {
+				r, c = bcdAdd(a, d, c, digits)
+			} else {
+				r, c = bcdSub(a, d, c, digits)
+			}
+			flag(s, fC, c != 0)
+			if s.m8() {
+				s.A = s.A&0xFF00 | uint16(r&0xFF)
+				nz8(s, byte(r))
+			} else {
+				s.A = uint16(r)
+				nz16(s, s.A)
+			}
+			s.PC += n
+			break
+		}
 		if s.m8() {
 			d := uint32(rd(m, l.lo))
 			if e.Ins == iSBC {
@@ -888,5 +921,63 @@ func Step(s *State, m Mem, op byte) {
 	}
 }
 
-// IsDecimalArith: ADC / SBC, whose result depends on the decimal flag (the model implements binary mode only).
+// IsDecimalArith: ADC / SBC, whose result depends on the decimal flag.
 func IsDecimalArith(op byte) bool { return Tab[op].Ins == iADC || Tab[op].Ins == iSBC }
+
+// ---- packed BCD arithmetic (decimal mode), digit by digit as in the decimal number system ----
+
+func bcdValid(v uint32, digits int) bool {
+	ok := v&0xF <= 9 && v>>4&0xF <= 9
+	if digits == 4 {
+		ok = ok && v>>8&0xF <= 9 && v>>12&0xF <= 9
+	}
+	return ok
+}
+
+// one decimal digit of a sum: digit and carry
+func bcdAddDigit(a, d, c uint32) (uint32, uint32) {
+	n := a&0xF + d&0xF + c
+	if n > 9 {
+		return (n - 10) & 0xF, 1
+	}
+	return n, 0
+}
+
+// one decimal digit of a difference a - d - (1-c): digit and carry (1 = no borrow)
+func bcdSubDigit(a, d, c uint32) (uint32, uint32) {
+	n := int32(a&0xF) - int32(d&0xF) - int32(1-c)
+	if n < 0 {
+		return uint32(n+10) & 0xF, 0
+	}
+	return uint32(n), 1
+}
+
+func bcdAdd(a, d, c uint32, digits int) (uint32, uint32) {
+	var r, x uint32
+	x, c = bcdAddDigit(a, d, c)
+	r = x
+	x, c = bcdAddDigit(a>>4, d>>4, c)
+	r |= x << 4
+	if digits == 4 {
+		x, c = bcdAddDigit(a>>8, d>>8, c)
+		r |= x << 8
+		x, c = bcdAddDigit(a>>12, d>>12, c)
+		r |= x << 12
+	}
+	return r, c
+}
+
+func bcdSub(a, d, c uint32, digits int) (uint32, uint32) {
+	var r, x uint32
+	x, c = bcdSubDigit(a, d, c)
+	r = x
+	x, c = bcdSubDigit(a>>4, d>>4, c)
+	r |= x << 4
+	if digits == 4 {
+		x, c = bcdSubDigit(a>>8, d>>8, c)
+		r |= x << 8
+		x, c = bcdSubDigit(a>>12, d>>12, c)
+		r |= x << 12
+	}
+	return r, c
+}
